@@ -381,6 +381,120 @@ theorem skip_iff (e : Env) :
 example : ({ vars := [("PYPYR_SKIP_INIT", "yes")] } : Env).skip = false ∧ ({} : Env).skip = false := by
   decide +kernel
 
+/-! ### 7b. Every `init()` obeys the environment of the moment it runs
+
+  The object on which `init` is called persists (the module singleton is built when `pypyr.config`
+  is imported; a program can build further `Config()`s), and the environment can change between
+  import, construction and each call. `initOn st e fs` is `init()` on the object `st` under the
+  environment `e` *of the call*; `runOps` plays a whole history. Nothing below has a hypothesis
+  about how `st` came to be. -/
+
+/-- `Config(); init()` in one unchanged environment is the special case. -/
+theorem initSt_eq_initOn (e : Env) (fs : Files) : initSt e fs = initOn (defaults e) e fs := rfl
+
+/-- **skip at call time.** If `$PYPYR_SKIP_INIT` is truthy *when `init` runs*, then — on any
+    object, built under any environment, after any earlier calls, whatever files exist — `init`
+    raises nothing, makes no `handle_path` call, and leaves every setting and the list of loaded
+    paths exactly as they were (only `skip_init` becomes true). -/
+theorem init_skip_at_call_time (st : ConfigState) (e : Env) (fs : Files) (hs : e.skip = true) :
+    initOn st e fs = ({ st with skipInit := true }, none) ∧
+    consulted fs st (initOrder e) = [] ∧
+    (initOn st e fs).1.scalars = st.scalars ∧ (initOn st e fs).1.dicts = st.dicts ∧
+    (initOn st e fs).1.loaded = st.loaded := by
+  simp [initOn, initOrder, hs, consulted]
+
+/-- **no skip at call time.** If it is not truthy when `init` runs, then — even on an object built
+    while it *was* set, or on which an earlier `init` skipped — the look-ups are those of the
+    *current* environment, in `init_order`'s order, merged into the object as it is. -/
+theorem init_looks_at_call_time (st : ConfigState) (e : Env) (fs : Files) (hs : e.skip = false) :
+    initOn st e fs = runLooks fs st (lookOrder e) ∧
+    consulted fs st (initOrder e) <+: (initOrder e).map (·.path) ∧
+    (∀ st', initOn st e fs = (st', none) →
+      consulted fs st (initOrder e) = (initOrder e).map (·.path)) := by
+  refine ⟨by simp [initOn, hs], consulted_prefix fs st (initOrder e), ?_⟩
+  intro st' h
+  simp only [initOn, hs] at h
+  simp only [initOrder, hs]
+  exact consulted_all_of_ok fs st st' (lookOrder e) h
+
+/-- **scalar_highest_wins, on any object.** After a successful `init` under `e`, every scalar has
+    the value of the highest-precedence file — in the order given by the environment *of the call* —
+    that sets it, else the value the object had before the call. -/
+theorem init_on_scalar_highest_wins (st st' : ConfigState) (e : Env) (fs : Files) (hs : e.skip = false)
+    (h : initOn st e fs = (st', none)) (k : String) (d : Val) (hd : st.scalar? k = some d) :
+    st'.scalar? k = some ((highest k ((payloadsOf fs (initOrder e)).map (·.2))).getD d) := by
+  simp only [initOn, hs] at h
+  simp only [initOrder, hs]
+  exact scalar_highest_wins_list st st' _ (runLooks_ok_applyAll h) k d hd
+
+/-- **dict_union_precedence, on any object.** … and `vars` / `shortcuts` are the key-wise union of
+    what the object held with the files, files winning in the same precedence. -/
+theorem init_on_dict_union_precedence (st st' : ConfigState) (e : Env) (fs : Files) (hs : e.skip = false)
+    (h : initOn st e fs = (st', none)) (name : String) (d0 : Dict) (h0 : st.dict? name = some d0) :
+    ∃ d', st'.dict? name = some d' ∧
+      ∀ key, dictGet? d' key =
+        (highestDict name key ((payloadsOf fs (initOrder e)).map (·.2))).or (dictGet? d0 key) := by
+  simp only [initOn, hs] at h
+  simp only [initOrder, hs]
+  exact dict_union_precedence_list st st' _ (runLooks_ok_applyAll h) name d0 h0
+
+theorem runOps_length (fs : Files) (objs : Objs) (ops : List Op) : (runOps fs objs ops).length = ops.length := by
+  induction ops generalizing objs with
+  | nil => rfl
+  | cons op ops ih => simp [runOps, ih]
+
+theorem runOps_append (fs : Files) (objs : Objs) (pre post : List Op) :
+    runOps fs objs (pre ++ post) = runOps fs objs pre ++ runOps fs (objsAfter fs objs pre) post := by
+  induction pre generalizing objs with
+  | nil => rfl
+  | cons op pre ih => simp [runOps, objsAfter, ih]
+
+/-- **In any history** (any number of objects, constructions, earlier `init`s, environment changes):
+    what an `init()` step shows is `initOn` of the object as the history left it and of the
+    environment *that step runs under* — nothing else of the history matters. -/
+theorem history_init_obeys_env_of_its_moment (fs : Files) (objs : Objs) (pre post : List Op)
+    (o : Nat) (e : Env) (st : ConfigState) (hst : objGet? (objsAfter fs objs pre) o = some st) :
+    (runOps fs objs (pre ++ Op.init o e :: post))[pre.length]? =
+      some ⟨o, some (initOn st e fs).1, (initOn st e fs).2, consulted fs st (initOrder e)⟩ := by
+  rw [runOps_append]
+  have hlen : (runOps fs objs pre).length = pre.length := runOps_length fs objs pre
+  rw [List.getElem?_append_right (by omega), hlen]
+  simp [runOps, stepOp, hst]
+
+/-- … so with `$PYPYR_SKIP_INIT` truthy at that step, that step looks nothing up and changes no
+    setting — e.g. on the singleton built at import, before the variable was set. -/
+theorem history_skip_at_its_moment (fs : Files) (objs : Objs) (pre post : List Op)
+    (o : Nat) (e : Env) (st : ConfigState) (hst : objGet? (objsAfter fs objs pre) o = some st)
+    (hs : e.skip = true) :
+    (runOps fs objs (pre ++ Op.init o e :: post))[pre.length]? =
+      some ⟨o, some { st with skipInit := true }, none, []⟩ := by
+  rw [history_init_obeys_env_of_its_moment fs objs pre post o e st hst]
+  obtain ⟨h1, h2, _⟩ := init_skip_at_call_time st e fs hs
+  rw [h1, h2]
+
+-- import without the variable (singleton 0 built), THEN set it, THEN init(): nothing is looked up;
+-- and the reverse: built while it was set, unset before init(): every file is merged.
+example :
+    (runOps exFiles [] [.construct 0 exEnv, .init 0 exEnvSkip]).map (fun o => (o.err, o.consulted))
+      = [(none, []), (none, [])] ∧
+    ((runOps exFiles [] [.construct 0 exEnv, .init 0 exEnvSkip])[1]?.bind (·.state)).map
+        (fun st => (st.scalar? "json_indent", st.loaded, st.skipInit)) = some (some (.int 2), [], true) ∧
+    ((runOps exFiles [] [.construct 0 exEnvSkip, .init 0 exEnv])[1]?.bind (·.state)).map
+        (fun st => (st.scalar? "json_indent", st.loaded.length, st.skipInit)) = some (some (.int 4), 4, false) ∧
+    ((runOps exFiles [] [.construct 0 exEnvSkip, .init 0 exEnv])[1]?.map (·.consulted))
+      = some ["/S/c2/pypyr/config.yaml", "/S/c1/pypyr/config.yaml", "/S/xh/pypyr/config.yaml",
+              "pyproject.toml", "pypyr-config.yaml"] := by
+  decide +kernel
+
+-- `$PYPYR_CONFIG_GLOBAL` set after construction and before init(): it replaces common + user.
+example :
+    ((runOps (("/S/g.yaml", .mapping [("json_indent", .int 9)]) :: exFiles) []
+        [.construct 0 exEnv, .construct 1 exEnv, .init 1 exEnvGlobal, .init 0 exEnv]).map (·.consulted))
+      = [[], [], ["/S/g.yaml", "pyproject.toml", "pypyr-config.yaml"],
+         ["/S/c2/pypyr/config.yaml", "/S/c1/pypyr/config.yaml", "/S/xh/pypyr/config.yaml",
+          "pyproject.toml", "pypyr-config.yaml"]] := by
+  decide +kernel
+
 /-! ### 8. Every rejection the property names is a config error -/
 
 /-- The errors for a missing `$PYPYR_CONFIG_GLOBAL`, a non-mapping file and an unknown setting
@@ -404,7 +518,9 @@ theorem config_props_agree :
 
 /-- **init_shape_agrees.** The `handle_path` calls of `Config.init` in source order (guard, loop
     direction, path, loader, raise_not_found), the environment variables it reads with their
-    defaults, and the XDG / macOS literals of `pypyr.platform` are the ones `lookOrder`,
+    defaults *inside `init`* (`initGetenv`) — while `Config.__init__` reads only the three env-derived
+    defaults (`ctorGetenv`) and nothing in `pypyr/config.py` reads the environment at import
+    (`moduleGetenv`): which variable is read at which moment is part of the tie —, and the XDG / macOS literals of `pypyr.platform` are the ones `lookOrder`,
     `userConfigPath`, `commonConfigPaths` and `commonBaseDefault` are written from. -/
 theorem init_shape_agrees :
     Generated.ConfigProps.initCalls =
@@ -416,6 +532,9 @@ theorem init_shape_agrees :
     Generated.ConfigProps.initGetenv =
       [("PYPYR_SKIP_INIT", some "0"), ("PYPYR_CONFIG_GLOBAL", none),
        ("PYPYR_CONFIG_LOCAL", some "pypyr-config.yaml")] ∧
+    Generated.ConfigProps.ctorGetenv =
+      [("PYPYR_CMD_ENCODING", none), ("PYPYR_ENCODING", none), ("PYPYR_NO_CACHE", some "0")] ∧
+    Generated.ConfigProps.moduleGetenv = [] ∧
     Generated.ConfigProps.platformArgs = ["pypyr", "config.yaml"] ∧
     appendCfg "" = "/" ++ "pypyr" ++ "/" ++ "config.yaml" ∧
     Generated.ConfigProps.xdgCommonBaseDefault = commonBaseDefault .posix ∧
